@@ -32,6 +32,10 @@ func main() {
 		probeTrace(os.Args[2])
 		return
 	}
+	if len(os.Args) > 1 && os.Args[1] == "fragwrap" {
+		probeFragWrap()
+		return
+	}
 	if len(os.Args) > 1 && os.Args[1] == "probe" {
 		t0 := time.Now()
 		probe()
